@@ -1,0 +1,17 @@
+//go:build verif
+
+package prelude
+
+import _ "embed"
+
+// The runtime invariant monitor of the verification harness. It is appended to
+// the last prelude file, so it is emitted inside the program closure and can
+// see the scheduler and channel state. It is inert unless the environment
+// variable GOPHERJS_VERIF_MON is set when the program runs.
+
+//go:embed verif_monitor.js
+var verifMonitor string
+
+func init() {
+	jsmapping += "\n" + verifMonitor
+}
